@@ -90,16 +90,16 @@ theorem bindLocals_lookup (n : String) : ∀ (A : List String), A.Nodup → ∀ 
       | none => simp [ha, lookupAssoc]
       | some j => simp [ha]; omega
 
-variable {Q : QRel} {β : CellRel}
+variable {Q : QRel} {cx : Cx} {β : CellRel}
 
 /-- the injection extended by the cells of equally named declarations -/
 def extPerm (β : CellRel) (A B : List String) (L L' : Nat) : CellRel :=
   fun a b => β a b ∨ ∃ n i j, idx n A = some i ∧ idx n B = some j ∧ a = L + i ∧ b = L' + j
 
-theorem SRel.bindLocalsPerm {σ σ' : State N} (h : SRel Q β σ σ') {D : List String} {A B : List String}
+theorem SRel.bindLocalsPerm {σ σ' : State N} (h : SRel Q cx β σ σ') {D : List String} {A B : List String}
     (hA : A.Nodup) (hB : B.Nodup) (hAB : ∀ n, n ∈ A ↔ n ∈ B) {ws ws' : List (Val N)}
     (hv : ∀ n, valOf n A ws = valOf n B ws') {l l' : List (String × Nat)} (he : EnvRel β D l l') :
-    ∃ β', β.le β' ∧ SRel Q β' (Sem.bindLocals A ws l σ).2 (Sem.bindLocals B ws' l' σ').2 ∧
+    ∃ β', β.le β' ∧ SRel Q cx β' (Sem.bindLocals A ws l σ).2 (Sem.bindLocals B ws' l' σ').2 ∧
       EnvRel β' D (Sem.bindLocals A ws l σ).1 (Sem.bindLocals B ws' l' σ').1 := by
   refine ⟨extPerm β A B σ.cells.length σ'.cells.length, fun _ _ hab => .inl hab, ?_, ?_⟩
   · rw [bindLocals_state, bindLocals_state]
@@ -163,8 +163,8 @@ def LocalEquiv (A : List String) (vs : List Expr) (B : List String) (vs' : List 
 
 /-- **Step (2).** -/
 theorem permLocal_sound {D : List String} {kind kind' : LocalKind} {ns ns' : List TName} {vs vs' : List Expr}
-    (heq : LocalEquiv (ns.map TName.name) vs (ns'.map TName.name) vs') (hrefl : SoundEs Q D vs vs) :
-    SoundS Q D (.localAssign kind ns vs) (.localAssign kind' ns' vs') := by
+    (heq : LocalEquiv (ns.map TName.name) vs (ns'.map TName.name) vs') (hrefl : SoundEs Q cx D vs vs) :
+    SoundS Q cx D (.localAssign kind ns vs) (.localAssign kind' ns' vs') := by
   intro N call ρ k env env' σ σ' β hc hs he
   obtain ⟨hA, hB, hAB, hsem⟩ := heq
   have h1 := hrefl N call ρ k env env' σ σ' β hc hs he
